@@ -324,6 +324,8 @@ def run(ctx):
     except (_Shape, StopIteration) as e_:
         if r6_decides:
             ctx.undecided('C11-R2', 'decoder|structure', dec, 'the decoder is not written in the shape the structural rules read (%s): its behaviour is decided by evaluation (C11-R6)' % (e_ or 'anchor statement missing'))
+            ctx.rules['C11-R2'] = (ctx.rules['C11-R2'][0], 0)      # the instances of the structural rule are exactly what was deferred
+            ctx.rules['C11-R1'] = (ctx.rules['C11-R1'][0], 5)
         else:
             raise AnalysisBroken(str(e_))
     # structural mismatches are violations only when the evaluation cannot vouch for the behaviour
